@@ -34,7 +34,11 @@ func vSameMD(a, b metadata.MD) bool {
 
 func vSomeMD(tag string) metadata.MD {
 	k := []string{"ka", "kb"}[verifChoice(tag+"-key", 2)]
-	return metadata.MD{k: {verifString(tag+"-v", 2), "x"}}
+	// legal values of a key that does not end in "-bin": printable ASCII (anything else, and what
+	// becomes of values that are not valid UTF-8: S-E2E group 5, finding F9)
+	v := verifASCII(tag+"-v", 2)
+	verifAssume(len(v) == 2) // (a symbolic length would fork the library's validation loop over every value)
+	return metadata.MD{k: {v, "x"}}
 }
 
 func vNewSrvStream(car *vSrvCarrier, serverStreams bool) (*tunnelServer, *tunnelServerStream, *vRcvMonC2S, context.Context) {
